@@ -5,9 +5,10 @@ WT=$1
 cd $WT || exit 2
 git diff -- litedram > /tmp/$$.patch
 ( cd $WT && /venv/bin/python _seed/demo.py > /tmp/$$.demo_changed.log 2>&1 ); RC_CHANGED=$?
-git stash -q -- litedram
+# (no `git stash`: the stash is shared by all worktrees of a repository)
+git apply -R /tmp/$$.patch
 ( cd $WT && /venv/bin/python _seed/demo.py > /tmp/$$.demo_orig.log 2>&1 ); RC_ORIG=$?
-git stash pop -q
+git apply /tmp/$$.patch
 /venv/bin/python -m pytest -q -p no:cacheprovider --timeout=900 --continue-on-collection-errors --junitxml=/tmp/$$.junit.xml > /tmp/$$.suite.log 2>&1
 python3 - $$ $RC_ORIG $RC_CHANGED <<'PY'
 import sys, json, xml.etree.ElementTree as ET
